@@ -448,6 +448,21 @@ def oracle_c20(h, r):
                 fails.append({'what': 'deserialize(%s) on rank %d gives %s, the serialized container held %s' % (a, rk, ys[:12], xs[:12])})
             elif x[0] != y[0]:
                 fails.append({'what': 'deserialize(%s) on rank %d: default value / cursor %s, serialized %s' % (a, rk, y[0], x[0])})
+    # operations issued right after deserialize() returned are not lost, nothing else changes
+    def allof(tag):
+        return sorted(t for rk in range(h.n) for t in Z.get((rk, tag), ('', []))[1])
+    if all((rk, 'M3') in Z for rk in range(h.n)):
+        want = sorted(allof('M') + ['%d=7' % (515151 + rk) for rk in range(h.n)])
+        if allof('M3') != want:
+            fails.append({'what': 'map: deserialize() followed at once by one async_insert per rank holds %d entries, image plus inserts is %d (lost or extra: %s)' % (
+                len(allof('M3')), len(want), sorted(set(want) ^ set(allof('M3')))[:8])})
+        want = sorted(allof('S') + [str(515151 + rk) for rk in range(h.n)])
+        if allof('S3') != want:
+            fails.append({'what': 'set: deserialize() followed at once by one async_insert per rank holds %d keys, image plus inserts is %d (lost or extra: %s)' % (
+                len(allof('S3')), len(want), sorted(set(want) ^ set(allof('S3')))[:8])})
+        want = sorted(allof('B') + [str(515151 + rk) for rk in range(h.n)])
+        if allof('B3') != want:
+            fails.append({'what': 'bag: deserialize() followed at once by one async_insert per rank holds %d items, image plus inserts is %d' % (len(allof('B3')), len(want))})
     allM = {int(t.split('=')[0]) for rk in range(h.n) for t in Z.get((rk, 'M'), ('', []))[1]}
     for rk in range(h.n):
         if 424242 + rk not in allM:
